@@ -354,6 +354,32 @@ static std::string handle(const std::string& cmd, const std::string& args) {
     IT92<double>::ignore_charge = true;
     return out;
   }
+  if (cmd == "sfhist") {
+    // several reflections on ONE calculator object (model Sfc/SfCache.v, section Worlds).
+    // args: table R<w> | G<el>:<ch> ...   R<w> = world w: reflection (1+w%5, 0, 0) and addend set number w, installed by
+    // set_stol2_and_scattering_factors (as every calculate_* entry point does); consecutive worlds may share the reflection
+    // (w and w+5) or the addends. Per G: T when the value equals, bit for bit, table value + addend in the current world.
+    IT92<double>::ignore_charge = false;
+    UnitCell cell(10, 10, 10, 90, 90, 90);
+    StructureFactorCalculator<IT92<double>> calc(cell);
+    std::string out;
+    for (size_t i = 1; i < w.size(); ++i) {
+      if (w[i][0] == 'R') {
+        int wd = (int) to_ll(w[i].substr(1));
+        for (int z = 1; z < 99; ++z) calc.addends.set(Element(z), 0.01f * (float) ((z + wd) % 7) - 0.02f + 0.001f * (float) (wd / 5));
+        calc.set_stol2_and_scattering_factors(Miller{{1 + wd % 5, 0, 0}});
+      } else {
+        size_t c = w[i].find(':');
+        int z = (int) to_ll(w[i].substr(1, c - 1)), ch = (int) to_ll(w[i].substr(c + 1));
+        Element el(z);
+        double got = calc.get_scattering_factor(el, (signed char) ch);
+        double want = IT92<double>::get(el.elem, (signed char) ch).calculate_sf(calc.stol2_) + calc.addends.get(el);
+        out += (out.empty() ? "" : " ") + std::string(got == want ? "T" : "F");
+      }
+    }
+    IT92<double>::ignore_charge = true;
+    return out;
+  }
   if (cmd == "o_direct") {
     // args: row seed natoms aniso table hmax charges
     int natoms = (int) to_ll(w.at(2)); bool aniso = to_ll(w.at(3)) != 0; int table = (int) to_ll(w.at(4));
